@@ -13,7 +13,7 @@ variable {S : Type} [DecidableEq S]
 def YieldAt (E : Env S) (s : St S) (p : Prog) (i : Nat) : Prop :=
   ∃ c, (s.clOf E.G.start)[i]? = some c ∧ costOf E p E.G.start = some c.fin
 
-theorem next_cost (E : Env S) (hnd : RowsNodup E.G) (hrec : E.recursive = true) (hprod : Productive E) (fuel : Nat)
+theorem next_cost (E : Env S) (hnd : RowsNodup E.G) (hst : StableAfter E) (hprod : Productive E) (fuel : Nat)
     (g : Gen S) (r : Gen S × Option Prog) (hg : GC E g) (hfresh : g.started = false → g.st = St.empty E.G ∧ g.frame = none)
     (h : next E fuel g = some r) :
     GC E r.1 ∧ Ext g.st r.1.st ∧ (g.started = true → g.n ≤ r.1.n) ∧
@@ -31,7 +31,7 @@ theorem next_cost (E : Env S) (hnd : RowsNodup E.G) (hrec : E.recursive = true) 
       · cases h
       · next s hp =>
         rw [hst0] at hp
-        have hs : CInv E s := prologue_cinv E hnd hrec hprod fuel s hp
+        have hs : CInv E s := prologue_cinv E hnd hst hprod fuel s hp
         obtain ⟨q1, q2, q3, q4⟩ := nextLoop_cost E fuel _ _ _ _ _ _ hs (fun fr he => by cases he) h
         have hx : Ext g.st s := by
           intro nt
@@ -68,7 +68,7 @@ theorem YieldAt.ext {E : Env S} {s s' : St S} {p : Prog} {i : Nat} (h : YieldAt 
 
 /-- the sequence produced by `take`: each program is tagged with the index at which it was yielded;
     the indices are non-decreasing -/
-theorem take_index (E : Env S) (hnd : RowsNodup E.G) (hrec : E.recursive = true) (hprod : Productive E) (fuel : Nat) :
+theorem take_index (E : Env S) (hnd : RowsNodup E.G) (hst : StableAfter E) (hprod : Productive E) (fuel : Nat) :
     ∀ (k : Nat) (g : Gen S) (acc : List Prog) (idx : List Nat) (r : Gen S × List Prog × Bool),
       GC E g → (g.started = false → g.st = St.empty E.G ∧ g.frame = none ∧ acc = []) →
       All2 (YieldAt E g.st) acc idx → idx.Pairwise (· ≤ ·) → (∀ i ∈ idx, g.started = true ∧ i ≤ g.n) →
@@ -87,10 +87,10 @@ theorem take_index (E : Env S) (hnd : RowsNodup E.G) (hrec : E.recursive = true)
     · cases h
     · next g' hn =>
       cases h
-      obtain ⟨q1, q2, _, _⟩ := next_cost E hnd hrec hprod fuel g _ hg (fun hs => ⟨(hfresh hs).1, (hfresh hs).2.1⟩) hn
+      obtain ⟨q1, q2, _, _⟩ := next_cost E hnd hst hprod fuel g _ hg (fun hs => ⟨(hfresh hs).1, (hfresh hs).2.1⟩) hn
       exact ⟨idx, ha.mono (fun _ _ hr => hr.ext q2), hp, q1⟩
     · next g' p hn =>
-      obtain ⟨q1, q2, q3, q5'⟩ := next_cost E hnd hrec hprod fuel g _ hg (fun hs => ⟨(hfresh hs).1, (hfresh hs).2.1⟩) hn
+      obtain ⟨q1, q2, q3, q5'⟩ := next_cost E hnd hst hprod fuel g _ hg (fun hs => ⟨(hfresh hs).1, (hfresh hs).2.1⟩) hn
       have hst' : g'.started = true := (q5' p rfl).1
       have q5 : ∀ p', some p = some p' → YieldAt E g'.st p' g'.n := fun p' hp' => (q5' p' hp').2
       refine ih g' (acc ++ [p]) (idx ++ [g'.n]) r q1 (fun hs => by rw [hst'] at hs; cases hs) ?_ ?_ ?_ h
